@@ -44,6 +44,9 @@ case $ID in
   C09-4)
     echo "#[cfg(test)] #[path = \"../$S/demo.rs\"] mod c09_demo2;" >> src/lib.rs; T cargo test --offline --lib c09_demo2; without=$?
     git apply $S/patch.diff; T cargo test --offline --lib c09_demo2; with=$? ;;
+  C02-3|C02-4)
+    git apply $S/hooks.diff; cp $S/demo.rs src/seeded_demo.rs; T cargo test --offline --lib seeded_demo; without=$?
+    clean; git apply $S/patch.diff && git apply $S/hooks.diff; cp $S/demo.rs src/seeded_demo.rs; T cargo test --offline --lib seeded_demo; with=$? ;;
   C10-3|C12-3|C12-4)
     H=hooks.diff; [ -f $S/demo_hooks.diff ] && H=demo_hooks.diff
     git apply $S/$H; T cargo test --offline --lib seeded_demo; without=$?
